@@ -151,4 +151,12 @@ func init() {
 	for _, pr := range []string{"C02", "C07", "C10"} {
 		reg(&HarnessSpec{Prop: pr, Name: "G:errs", What: whatG + " - corpus case errs (three error-capable sites incl. a converter on a nested path and an error-returning getter; error-returning pre/post hooks in return and arg style with by-value destination; by-value hook; hook with additional argument): every failure subset is explored through the symbolic inputs that make each user function fail", Bounds: "4 generated functions; k <= 3 error-capable sites", Assumes: []string{aG}})
 	}
+
+	// ---------------------------------------------------------------- C12
+	reg(&HarnessSpec{Prop: "C12", Name: "C12LoaderHook", Replay: "e2e-regen",
+		What:    "real parser.NewParser incl. its ParseFile hook with the loader, file system and go/parser symbolic: the loader delivers the input file, another file and (when it exists) the output file in arbitrary order with arbitrary contents; whenever a delivered file is the output path the hook withholds it silently and its bytes are never handed to the Go parser; every other file is parsed exactly once, unchanged, the input file with comments; the result of NewParser is decided by the loader's own result and the input file only - independent of whether the output path exists, of its bytes and of the Errors/TypeErrors/IllTyped fields of the loaded package (arbitrary, incl. every ErrorKind); an output path naming the input file is rejected and the input never parsed",
+		Bounds:  "3 files, contents <= 20 bytes (SMT strings), delivery order arbitrary rotation, 0..1 packages",
+		Assumes: []string{aEnv, "assumed, not decided (environment): go list / packages.Load deliver the same package, minus the withheld file, whatever same-package bytes the output path holds"}})
+	reg(&HarnessSpec{Prop: "C12", Name: "C15Run", Replay: "e2e-regen", What: "the only write is one whole-file os.WriteFile of the formatted bytes after every stage succeeded (see C15Run)", Bounds: "as C15Run", Assumes: []string{aEnv}})
+	reg(&HarnessSpec{Prop: "C12", Name: "C18Generate", Replay: "e2e-regen", What: "Generate's write discipline (see C18Generate)", Bounds: "as C18Generate", Assumes: []string{aEnv}})
 }
